@@ -158,6 +158,42 @@ def gen_history(seed, hid, flavour="nocompact", n_ops=8, maxtx=5, aborts=True, v
     return {"id": hid, "flavour": flavour, "ops": ops}
 
 
+def gen_vacuum_deep(seed, hid):
+    """Several compactions (each orphans pages), vacuum, then writes that allocate pages again
+    (transactions + compaction), reopen, a second vacuum, a write and a reopen."""
+    rng = random.Random(seed)
+    sh = Shadow()
+    ops = []
+
+    def rounds(n):
+        for _ in range(n):
+            for _ in range(rng.randint(1, 2)):
+                txops = gen_tx(rng, sh, "compact", 5)
+                if txops:
+                    ops.append({"op": "tx", "ops": txops})
+            # a compaction needs at least one relationship in the runs to build a segment
+            if not sh.run_edges and len(sh.nodes) >= 2:
+                a, b = rng.sample(sorted(sh.nodes), 2)
+                t = rng.choice(TYPES)
+                if (a, t, b) not in sh.dead_keys:
+                    ops.append({"op": "tx", "ops": [["CreateEdge", a, t, b]]})
+                    sh.rel[(a, t, b)] = sh.rel.get((a, t, b), 0) + 1
+                    sh.run_edges.add((a, t, b))
+            ops.append({"op": rng.choice(["compact", "checkpoint"])})
+            sh.compact()
+
+    rounds(rng.randint(3, 5))
+    ops.append({"op": "vacuum"})
+    rounds(rng.randint(1, 3))
+    ops.append({"op": "reopen", "how": rng.choice(["drop", "close"])})
+    ops.append({"op": "vacuum"})
+    txops = gen_tx(rng, sh, "compact", 4)
+    if txops:
+        ops.append({"op": "tx", "ops": txops})
+    ops.append({"op": "reopen", "how": "drop"})
+    return {"id": hid, "flavour": "compact", "ops": ops}
+
+
 def probes():
     """Deterministic histories that reproduce each known finding (and nothing else)."""
     P = []
